@@ -397,6 +397,12 @@ impl VM {
                         );
                         continue;
                     }
+                    // base pointers are 16 bits wide: a deeper stack can not be addressed
+                    if self.stack.len() > u16::MAX as usize {
+                        return Err(Error::TypeError(
+                            "de stapel is vol (te diepe recursie)".to_string(),
+                        ));
+                    }
                     let base_pointer = self.stack.len() as u16 - 1 - num_args as u16;
                     let obj = self.pop();
                     if obj.tag() != Type::Function {
